@@ -21,10 +21,10 @@ CLAIMED["C12"] = dict(
 CLAIMED["C19"] = dict(
     technique="Coq proof over tables regenerated from chokan.el + correspondence against the elisp source run by a purpose-built evaluator",
     text="Kernel-checked theorems: every one of the 259 table spellings types to its kana (computed over the regenerated table), conversion terminates for every input (fuel S|s| suffices, "
-         "no empty key), characters in no key pass through in order, a doubled consonant yields っ + the rest, hira-to-kata is character-wise and maps exactly the table kana. "
+         "no empty key), characters in no key pass through in order, a doubled consonant yields っ + the rest - for every consonant of the client's list, which (C19_sokuon_class, computed on both regenerated tables) contains every consonant that the repository's kana-alpha conversion doubles -, hira-to-kata is character-wise and maps exactly the table kana. "
          "conversion is idempotent on its own output for EVERY input (C19_idempotent: induction over the engine, resting on two facts computed on the regenerated table - no value is empty, the characters of every value and っ occur in no key and are no doubling consonant). "
          "The three defuns are executed from chokan.el's text by a mini elisp evaluator and compared with the model on exhaustive short strings and random strings.",
-    note="full for the modelled engine; Emacs is absent, so the evaluator /verif/tools/elisp_mini.py (reproduces chokan-tests.el) is trusted to stand in for it when the model is compared with chokan.el's text. Trusted: Coq kernel, translator gen_elisp.",
+    note="full for the modelled engine; Emacs is absent, so the evaluator /verif/tools/elisp_mini.py (reproduces chokan-tests.el) is trusted to stand in for it when the model is compared with chokan.el's text. Trusted: Coq kernel, translators gen_elisp and gen_kana.",
     ref="6/C19")
 CLAIMED["C04"] = dict(
     technique="Coq proof (invariant + refinement to a key set, all admissible free-slot choices) + step-refinement correspondence with the implementation's own choices",
